@@ -9,6 +9,8 @@ zero-padded to width `w` (`w = 1`: not padded).
 -/
 import NumbersModel.Lemmas.DateFmt
 import NumbersModel.Lemmas.Duration
+import NumbersModel.Lemmas.TrDateFmt
+import NumbersModel.Lemmas.TrDuration
 import NumbersModel.Gen.Constants
 namespace NumbersModel.Props.C14
 open NumbersModel NumbersModel.Digits NumbersModel.DateFmt NumbersModel.Duration
@@ -310,3 +312,105 @@ example : autoUnits 604800000 ⟨0, 2, 16, true⟩ = (16, 1) := by decide
 example : expandQuotes "it''s 'a' 'b c'".toList = "it's a b c".toList := by decide
 
 end NumbersModel.Props.C14
+
+/-! ## The same clauses over the definitions translated from the Python source
+
+`Gen/TrDateFmt.lean` and `Gen/TrDuration.lean` are regenerated by `harness/py2lean.py` from `constants.py`
+(`_day_of_year`, `_week_of_month`, `_days_occurred_in_month`) and `cell.py` (`_expand_quotes`, `_decode_date_format`,
+`_unit_format`, `_auto_units`) in the working tree on every check run; `Lemmas/TrDateFmt.lean` / `Lemmas/TrDuration.lean`
+prove them equal to the model (`*_eq_model`: the index-based `while` loops of the two scanners against the list recursion
+of `scanLoop` / `expandLoop`, for every text).  The calendar (`weekday()`, `tm_yday`), `str.isalpha` and the directive table
+stay parameters of the translated definitions. -/
+namespace NumbersModel.Props.C14.Src
+open NumbersModel NumbersModel.Digits NumbersModel.DateFmt NumbersModel.Duration NumbersModel.Gen.T NumbersModel.Translated
+
+/-- `W` = `str(_week_of_month(x) - 1)` over the translated `_week_of_month`: the number of whole weeks between the Monday on
+    or before the 1st and the date, at most 5. -/
+theorem src_week_of_month_directive (dt : DateTime) (hd : 1 ≤ dt.day) (hd' : dt.day ≤ 31) :
+    ∃ w : Int, week_of_month (dt.day : Int) (weekdayOf dt.year dt.month 1 : Int) = .ok w ∧
+      intStr (w - 1) = Directive.W.render dt ∧
+      Shows (intStr (w - 1)) ((dt.day - 1 + weekdayOf dt.year dt.month 1) / 7) 1 ∧
+      (dt.day - 1 + weekdayOf dt.year dt.month 1) / 7 ≤ 5 := by
+  refine ⟨(weekOfMonth dt : Int), week_of_month_eq_model dt, ?_⟩
+  have hw : 1 ≤ weekOfMonth dt := by unfold weekOfMonth; omega
+  have e : ((weekOfMonth dt : Int) - 1) = ((weekOfMonth dt - 1 : Nat) : Int) := by omega
+  have h2 : ¬ (((weekOfMonth dt - 1 : Nat) : Int) < 0) := by omega
+  have e2 : intStr ((weekOfMonth dt : Int) - 1) = Directive.W.render dt := by
+    rw [e]; simp only [intStr, h2, if_false, Int.toNat_natCast]; rfl
+  obtain ⟨h3, h4⟩ := C14.week_of_month_directive dt hd hd'
+  exact ⟨e2, by rw [e2]; exact h3, h4⟩
+
+/-- `F` over the translated `_days_occurred_in_month`: which occurrence of its weekday in the month the day is (1 … 5). -/
+theorem src_nth_weekday_directive (dt : DateTime) (hd : 1 ≤ dt.day) (hd' : dt.day ≤ 31) :
+    ∃ t, days_occurred_in_month (dt.day : Int) = .ok t ∧ t = Directive.F.render dt ∧
+      Shows t ((dt.day - 1) / 7 + 1) 1 ∧ 1 ≤ (dt.day - 1) / 7 + 1 ∧ (dt.day - 1) / 7 + 1 ≤ 5 :=
+  ⟨_, days_occurred_in_month_eq_model dt, rfl, C14.nth_weekday_directive dt hd hd'⟩
+
+/-- `D`/`DD`/`DDD` over the translated `_day_of_year`: it hands `tm_yday` through unchanged, and the three directives
+    show it unpadded / to two / to three digits. -/
+theorem src_day_of_year_directives (dt : DateTime) :
+    day_of_year (dt.yday : Int) = .ok (dt.yday : Int) ∧
+    Shows (Directive.D.render dt) dt.yday 1 ∧ Shows (Directive.DD.render dt) dt.yday 2 ∧
+    Shows (Directive.DDD.render dt) dt.yday 3 :=
+  ⟨day_of_year_eq_model _, C14.day_of_year_directives dt⟩
+
+/-- `scanner_concat` over the translated `_decode_date_format`: never raises, and a well-formed format displays as the
+    concatenation of what its parts display. -/
+theorem src_scanner_concat (isAlpha : Char → Bool) (dt : DateTime) (ps : List Part) (h : WellFormed isAlpha ps) :
+    decode_date_format isAlpha (decodeField dt) (serialiseAll ps) = .ok (displayAll (decodeField dt) ps) := by
+  rw [decode_date_format_eq_model]
+  exact congrArg Except.ok (C14.scanner_concat isAlpha dt ps h)
+
+/-- the translated scanner is total: for every alphabet, renderer and text it returns the model's text. -/
+theorem src_scanner_total (isAlpha : Char → Bool) (dt : DateTime) (fmt : Text) :
+    decode_date_format isAlpha (decodeField dt) fmt = .ok (decodeDateFormat isAlpha fmt dt) :=
+  decode_date_format_eq_model isAlpha (decodeField dt) fmt
+
+theorem src_scanner_literal_passthrough (isAlpha : Char → Bool) (dt : DateTime) (s : Text) (hne : s ≠ [])
+    (h : ∀ c ∈ s, isAlpha c = false ∧ c ≠ '\'') :
+    decode_date_format isAlpha (decodeField dt) s = .ok s := by
+  rw [src_scanner_total]; exact congrArg Except.ok (C14.scanner_literal_passthrough isAlpha dt s hne h)
+
+theorem src_scanner_quoted_passthrough (isAlpha : Char → Bool) (dt : DateTime) (s : Text) (hne : s ≠ [])
+    (h : ∀ c ∈ s, c ≠ '\'') :
+    decode_date_format isAlpha (decodeField dt) ('\'' :: s ++ ['\'']) = .ok s := by
+  rw [src_scanner_total]; exact congrArg Except.ok (C14.scanner_quoted_passthrough isAlpha dt s hne h)
+
+/-- the translated `_expand_quotes` is the translated `_decode_date_format` with an empty alphabet … -/
+theorem src_expand_quotes_is_fieldless_scanner (s : Text) (rf : Text → Text) :
+    expand_quotes s = decode_date_format (fun _ => false) rf s := by
+  rw [expand_quotes_eq_model, decode_date_format_eq_model, C14.expand_quotes_is_fieldless_scanner s rf]
+
+/-- … and displays the concatenation of its parts. -/
+theorem src_expand_quotes_concat (ps : List Part) (h : WellFormed (fun _ => false) ps) :
+    expand_quotes (serialiseAll ps) = .ok (displayAll (fun _ => []) ps) := by
+  rw [expand_quotes_eq_model]; exact congrArg Except.ok (C14.expand_quotes_concat ps h)
+
+/-- the translated `_unit_format` for a named unit: the model's label. -/
+theorem src_unit_format (u : Text) (hu : u ≠ []) (v style : Nat) (ab : Option Text) :
+    unit_format u (v : Int) (style : Int) ab = .ok (unitFormat u v style ab) := by
+  rw [unit_format_eq_model]; simp [hu]
+
+/-- the translated `_auto_units` returns two of the six units, largest ≤ smallest, and the smallest divides the duration … -/
+theorem src_auto_units_valid (ms l s : Nat) (hs : IsDurUnit s) :
+    ∃ sm lg : Nat, auto_units ⟨(ms : Int)⟩ (l : Int) (s : Int) = .ok ((sm : Int), (lg : Int)) ∧
+      IsDurUnit sm ∧ IsDurUnit lg ∧ lg ≤ sm ∧ ms % unitMsOf sm = 0 := by
+  refine ⟨(autoUnits ms ⟨0, l, s, true⟩).1, (autoUnits ms ⟨0, l, s, true⟩).2, auto_units_eq_model ms 0 l s true, ?_⟩
+  obtain ⟨h1, h2, h3⟩ := C14.auto_units_valid ms ⟨0, l, s, true⟩ hs
+  exact ⟨h1, h2, h3, C14.auto_units_exact ms ⟨0, l, s, true⟩ hs⟩
+
+/-- … so with the units the translated `_auto_units` picks, the displayed duration reads back exactly. -/
+theorem src_duration_reads_back_auto (ms style l s : Nat) (hs : IsDurUnit s) :
+    ∃ sm lg : Nat, auto_units ⟨(ms : Int)⟩ (l : Int) (s : Int) = .ok ((sm : Int), (lg : Int)) ∧
+      dot (unitsBetween lg sm) (readNumbers (durationFormat ms ⟨style, l, s, true⟩)) = ms :=
+  ⟨_, _, auto_units_eq_model ms style l s true, C14.duration_reads_back_auto ms style l s hs⟩
+
+example : expand_quotes "it''s 'a' 'b c'".toList = .ok "it's a b c".toList := by decide +kernel
+example : decode_date_format isAsciiAlpha (decodeField C14.sample) "k:mm 'on' EEEE".toList
+    = .ok "24:07 on Thursday".toList := by decide +kernel
+example : week_of_month 8 0 = .ok 2 ∧ days_occurred_in_month 29 = .ok ['5'] := by decide +kernel
+example : auto_units ⟨604800000⟩ 2 16 = .ok (16, 1) ∧ auto_units ⟨1500⟩ 2 16 = .ok (32, 16) := by decide +kernel
+example : unit_format "week".toList 2 2 none = .ok " weeks".toList ∧ unit_format [] 2 1 none = .error .IndexError := by
+  decide +kernel
+
+end NumbersModel.Props.C14.Src
